@@ -120,4 +120,16 @@ PROPS = {
             "a position one past the last byte (EOF) counts as inside the source",
         ],
     },
+    "C04": {
+        "quick": [
+            {"test": "TestC04History", "checks": 24000, "shards": 4},
+        ],
+        "thorough": [
+            {"test": "TestC04History", "checks": 1600000, "shards": 16},
+        ],
+        "assumptions": [
+            "programs are deterministic by construction: no now without fake, no lorem random, no random filter, maps iterated only with 'sorted'",
+            "the static facet of the quantifier (all functions reachable from Execute, for all inputs) is not addressed by this technique",
+        ],
+    },
 }
